@@ -5,6 +5,7 @@ from hqrules.templates import (effect_blocks, must_pass, state_writes, variants_
                                local_field_sources, binops, operand_fields, field_write_sites, field_read_sites)
 from .common import *
 from .journal_common import *
+from . import shared_rules
 
 EXPLANATION = ('Structural conditions of C12: (R12.1) replay <-> prune agreement derived from both functions on every run: a record whose replay '
                'writes job state must be kept always or filtered by JOB liveness, one whose replay writes allocation-queue state must be kept '
@@ -102,6 +103,18 @@ def run(ctx):
             ctx.ob('R12.1', f'{v}|kept unconditionally', not may_drop[v],
                    f'replay of {v} writes restorer state ({sorted(rw[v])}) and its prune arm consults no liveness set: the record must be kept on every path (a dropped ServerStart loses the server uid, a dropped queue record loses the queue)', pj.loc())
     ctx.floor('R12.1', nk, 4, 'state-writing records without a liveness filter')
+    # a job record that prune keeps without asking whether its job is live can outlive the job's other records: its replay
+    # arm must then tolerate a job it does not know (no unwrap on the jobs lookup)
+    lef_ = prog.body(LEF)
+    UNW = ('Option::unwrap', 'Option::expect')
+    for v in prog.variants(EP):
+        if 'job' not in {DOMAINS.get(f) for f in rw.get(v, set())}:
+            continue
+        strict = [bi for bi, t, c in lef_.calls() if bi in lef_.reachable() and (c or '').endswith(UNW) and (variants_at(lef_, EP, bi) or set()) == {v}
+                  and op_local(t['args'][0]) is not None and 'jobs' in local_field_sources(lef_, op_local(t['args'][0]), through_mutation=False)]
+        ctx.ob('R12.1', f'{v}|job filter or tolerant replay', 'job' in pf.get(v, set()) or not strict,
+               f'{v}: prune filters the record by job liveness, or the replay arm does not unwrap the job lookup (observed filter {sorted(pf.get(v, set())) or "keep-always"}, unwrapping lookups in the replay arm: {len(strict)})', lef_.loc(strict[0]) if strict else pj.loc())
+    shared_rules.replay_batch_lookup_per_id(ctx, 'R12.2')
     # records that are filtered by job liveness must actually be job records (sanity of the derivation)
     for v, filt in pf.items():
         if 'job' in filt:
